@@ -121,7 +121,12 @@ pub fn gen_search(r: &mut Rng, live: &Live, allow_index: bool, simple: bool) -> 
         else if mode < 5 { let n = r.chance(4, 5); (gen_qid(r, live, n), Qid::Id(0)) }
         else if mode < 7 { let n = r.chance(4, 5); (Qid::Id(0), gen_qid(r, live, n)) }
         else { (gen_qid(r, live, true), gen_qid(r, live, true)) };
-    let (limit, offset) = if simple || r.chance(1, 2) { (0, 0) } else { (r.below(n + 4), r.below(n + 4)) };
+    let (mut limit, mut offset) = if simple || r.chance(1, 2) { (0, 0) } else { (r.below(n + 4), r.below(n + 4)) };
+    if !simple && r.chance(1, 12) {
+        // u64 boundary: limit + offset must not overflow / wrap (LimitOffsetHandler::new, SearchQuery::slice)
+        let big = [u64::MAX, u64::MAX - 1, 1u64 << 63][r.below(3) as usize];
+        match r.below(3) { 0 => limit = big, 1 => offset = big, _ => { limit = big; offset = [u64::MAX, u64::MAX - 1, 1u64 << 63][r.below(3) as usize]; } }
+    }
     let order = if simple || r.chance(2, 3) { vec![] } else { (0..r.range(1, 3)).map(|_| (r.chance(1, 2), gen_key(r))).collect() };
     let mut conds: Vec<Cond> = if r.chance(1, 3) { vec![] } else { (0..r.range(1, 3)).map(|_| gen_cond(r, live, 1)).collect() };
     if alg == 'i' {
